@@ -86,7 +86,8 @@ file space (`segStartLeB_of_occ`), and for ANY nesting (also partial) from layou
 (`layoutStartsB_of_static`, invariant `GenLe`: under layoutNW every generated proper section starts at or below the
 cursor; `save_twice_runs_static'`).  `save_twice_runs_small'` (Props/C06Small.lean): layoutNW itself replaced by the
 closed-form bounds `SmallObject o` (families/c04.py) - the no-wrap hypotheses of the second-save theorem are then plain
-bounds plus HeadOk.  Restated theorems: `save_twice_runs'` (ResaveOkC + layoutNW + layoutStartsB),
+bounds plus HeadOk.  `Compose.save_load_save_flat_small'`: save . load . save on flat segments with NoWrap64 of the saved
+object discharged from the closed-form bounds too (`C04.noWrap64_of_small_flat`); non-vacuity exTwoM.  Restated theorems: `save_twice_runs'` (ResaveOkC + layoutNW + layoutStartsB),
 `save_twice_runs_flat'` (ResaveOkC + layoutNW + layoutDomB), `Compose.save_load_save_flat'` (`ResaveDomainC` =
 ResaveDomain with ResaveOkC), `Compose.save_load_save_nested_input'` (NestedDomain + ResaveOkC); `stepNoWrap_of_layoutNW`
 shows the derived fact at a member.  Non-vacuity: exObj32, exTwoM, exNestedM.
@@ -180,6 +181,7 @@ THEOREMS = ["ElfioVerif.C06.save_twice_witness",
             "ElfioVerif.C06.save_twice_runs_static'",
             "ElfioVerif.C06.save_twice_runs_small'",
             "ElfioVerif.C06.layoutNW_not_sufficient_witness",
+            "ElfioVerif.Compose.save_load_save_flat_small'",
             "ElfioVerif.C06.resaveOkR_of_layoutNW",
             "ElfioVerif.C06.stepNoWrap_of_layoutNW",
             "ElfioVerif.C06.save_twice_runs'",
